@@ -185,6 +185,9 @@ def eq(a, b):
             return False
         ka, kb = sorted(a.list_keys()), sorted(b.list_keys())
         return ka == kb and all(eq(a.get(k), b.get(k)) for k in ka)
+    if isinstance(a, BaseException) and type(a).__name__ == "MementoException":
+        # a recorded failure: class name and message (the trace text is re-rendered when it is stored)
+        return type(a) is type(b) and a.exception_name == b.exception_name and a.message == b.message
     if type(a) is not type(b):
         # pandas Timestamp is a datetime subclass; pickled values keep their class
         return False
